@@ -448,7 +448,13 @@ def r03_b(ctx):
     fd = _m(node, 'find')
     ps = fd.params()
     kw = fd.node.args.kwarg.arg if fd.node.args.kwarg else None
-    t = ' '.join(norm(s) for s in strip_doc(fd.node.body))
+    from .model import resolve_locals as _rl
+    import copy as _copy
+    fnorm = _copy.deepcopy(fd.node)
+    for n_ in ast.walk(fnorm):
+        if isinstance(n_, ast.Return) and n_.value is not None:
+            n_.value = _rl(fd.node, n_.value)
+    t = ' '.join(norm(s) for s in strip_doc(fnorm.body))
     call = 'self.find_all(%s, **%s)' % (ps[1], kw)
     ok = (call + '[0]') in t and 'None' in t and ('IndexError' in t or 'next(' in t)
     ok = ok or ('next(iter(%s), None)' % call) in t
@@ -1077,6 +1083,8 @@ def r15_c(ctx):
             if isinstance(t, ast.UnaryOp) and isinstance(t.op, ast.Not):
                 v = test_value(t.operand, env)
                 return None if v is None else not v
+            if isinstance(t, ast.Name) and ('#bool', t.id) in env:
+                return env[('#bool', t.id)]        # a named sub-condition, decided where it was assigned
             if isinstance(t, ast.BoolOp):
                 vals = [test_value(x, env) for x in t.values]
                 if isinstance(t.op, ast.And):
@@ -1264,6 +1272,11 @@ def r15_c(ctx):
                                 e[v] = frozenset({'unknown'})
                         else:
                             visit_calls(s, e)
+                            if isinstance(s, ast.Assign) and len(s.targets) == 1 and isinstance(s.targets[0], ast.Name) \
+                                    and isinstance(s.value, (ast.Call, ast.BoolOp, ast.UnaryOp, ast.Compare)):
+                                tv_ = test_value(s.value, e)
+                                e = dict(e)
+                                e[('#bool', s.targets[0].id)] = tv_
                         nxt.append(e)
                 envs = nxt
             return envs
